@@ -22,6 +22,10 @@ func runC02(c *Ctx) {
 			runLongBattle(c, idx, r)
 			return
 		}
+		if idx%20011 == 5 || (c.Thorough() && idx == 7) {
+			runDeepQueue(c, idx, r)
+			return
+		}
 		bc := genBattle(r, 4, r.Chance(1, 3))
 		if idx == 0 {
 			// pinned witness of a repaired defect (known_findings.txt): entry point wraps past the last address
@@ -216,4 +220,57 @@ func runC02(c *Ctx) {
 			c.Sample(bc.describe())
 		}
 	})
+}
+
+// runDeepQueue: a splitter on a tiny core under a process limit of thousands (in the thorough tier once: millions):
+// the queue grows to the limit, stays there, and is a first-in-first-out queue all the way (compared with the
+// reference at checkpoints and at the end; the internal invariants are evaluated as well).
+func runDeepQueue(c *Ctx, idx int64, r *Rng) {
+	m := r.Range(6, 16)
+	p := []int{8193, 9000, 12000, 16385, 20000, 40000, 70000}[r.Intn(7)]
+	if c.Thorough() && idx == 7 {
+		p = 1<<21 + r.Range(1, 5000)
+	}
+	spl := mars.Insn{Op: mars.SPL, Mod: mars.MB, AM: mars.DIR, BM: mars.DIR}
+	jmp := mars.Insn{Op: mars.JMP, Mod: mars.MB, AM: mars.DIR, BM: mars.DIR, A: m - 1}
+	bc := &BattleCase{M: m, P: p, C: 2*p + r.Range(100, 3000), R: m, W: m, Warriors: []*BWarrior{{Code: []mars.Insn{spl, jmp}, Off: r.Intn(m)}}}
+	if r.Bool() {
+		bc.Warriors = append(bc.Warriors, &BWarrior{Code: []mars.Insn{{Op: mars.JMP, Mod: mars.MB, AM: mars.DIR, BM: mars.DIR}}, Off: (bc.Warriors[0].Off + 3) % m})
+	}
+	var s g.ReportingSimulator
+	var ws []g.Warrior
+	var err error
+	if pn, msg := try(func() { s, ws, err = bc.newReal(0) }); pn || err != nil {
+		c.Violate("C02:setup:"+panicSite(msg), fmt.Sprintf("building the battle failed: %v %s", err, msg), bc.describe())
+		return
+	}
+	ref := bc.newRef(0)
+	step := max(1024, bc.C/12)
+	for cyc := 0; !ref.Decided(); cyc++ {
+		ref.RunCycle()
+		if pn, msg := try(func() { s.RunCycle() }); pn {
+			c.Violate("C02:panic:"+panicSite(msg), fmt.Sprintf("cycle %d: %s", cyc, msg), bc.describe())
+			return
+		}
+		if cyc%step == step-1 || ref.Decided() || (cyc > p-3 && cyc < p+3) {
+			if ok, d := compareBattle(s, ws, ref, 0); !ok {
+				c.Violate("C02:long:state:"+strings.SplitN(d, ":", 2)[0], fmt.Sprintf("deep queue, after cycle %d: %s", cyc+1, firstWords(d, 40)), bc.describe())
+				return
+			}
+			if inv := verifInvariants(s); len(inv) > 0 {
+				c.Violate("C02:invariant", fmt.Sprintf("deep queue, after cycle %d: %v", cyc+1, inv), bc.describe())
+				return
+			}
+		}
+	}
+	c.Inc("deep_queue_battles")
+	c.Max("max_tasks_of_one_warrior", int64(len(ws[0].Queue())))
+}
+
+func firstWords(s string, n int) string {
+	f := strings.Fields(s)
+	if len(f) > n {
+		f = append(f[:n], "...")
+	}
+	return strings.Join(f, " ")
 }
